@@ -211,6 +211,21 @@ def w_arith(arg):
             yield 'separatecoeff(reduce(A+B))', cls(cls.separatecoeff((A + B).reduce())), [x + y for x, y in zip(va, vb)]
             yield 'collectcoeff(separatecoeff(A))', cls(cls.collectcoeff(cls.separatecoeff(A))), va
             yield 'truncatecoeff(A)', cls(cls.truncatecoeff(A, 1)), [val(A, q, nmax=1) for q in qs]
+            # an empty operand (accumulator start, difference of equal expansions reduced, truncation that removes everything)
+            Zr = [0 * x for x in va]
+            yield 'empty-B', cls([]) - B, [-y for y in vb]
+            yield 'empty+B', cls([]) + B, vb
+            yield 'B-empty', B - cls([]), vb
+            yield 'sumcoeff(empty,B,2,-3)', cls(cls.sumcoeff(cls([]), B, 2., -3.)), [-3. * y for y in vb]
+            yield 'sumcoeff(A,empty,2,-3)', cls(cls.sumcoeff(A, cls([]), 2., -3.)), [2. * x for x in va]
+            # lists in which one (n, l) occurs more than once (separate() followed by a sum, one n held in two pieces): evaluation adds them all
+            S1 = cls(cls.separatecoeff(A))
+            yield 'separate(A)+B', S1 + B, [x + y for x, y in zip(va, vb)]
+            yield 'separate(A)-separate(B)', S1 - cls(cls.separatecoeff(B)), [x - y for x, y in zip(va, vb)]
+            dup = cls([(n, l, c.copy()) for n, l, c in a0] + [(n, l, 0.5 * c) for n, l, c in a0])
+            yield 'list-with-repeated-(n,l)', dup, [1.5 * x for x in va]
+            dup2 = cls([(n, l, c.copy()) for n, l, c in a0] + [(n, l, 0.5 * c) for n, l, c in a0])      # (a yielded result is scribbled on by the aliasing clause: build it again)
+            yield 'separate(list-with-repeated-(n,l))', cls(cls.separatecoeff(dup2)), [1.5 * x for x in va]
             if len(shape) == 2:
                 M = rng.normal(size=(3, shape[0])) + 1j * rng.normal(size=(3, shape[0]))
                 N = rng.normal(size=(shape[1], 2)) + 1j * rng.normal(size=(shape[1], 2))
